@@ -16,7 +16,7 @@ from vpbt.gen import streams as S
 ID = "C25"
 LEVEL = "exploration"
 RULE = (
-    "Inputs: the 32 valid corpus streams (2 pictures each; encoder output for many configurations incl. fragments, fields, two "
+    "Inputs: the 34 valid corpus streams (2 pictures each; encoder output for many configurations incl. fragments, fields, two "
     "sequences, padding units) and their byte-, bit-field-, field- and unit-level mutations (C02 generator), written to a file in "
     "a scratch directory; output patterns picture_%d.raw, %03d.raw, x%d.json, nested directory prefixes, directory names containing dots, patterns without extension and dot-files; with/without --no-status "
     "and -v. Oracle: vc2_bitstream_validator.main() in-process vs a direct parse_stream of the same bytes: conformant -> exit 0 "
